@@ -27,7 +27,7 @@ if [ "$SUITE" = suite ]; then
   [ -z "$SUITE_RES" ] && SUITE_RES=allpass
 fi
 # zcheck on the changed tree
-mkdir -p /tmp/zout/$P-$K
+mkdir -p /tmp/zout/$P-$K; cp /verif/known_findings.json /tmp/zout/$P-$K/
 /verif/bin/zcheck -p $P -repo $WT -verif /tmp/zout/$P-$K > $OUT/confirm$K.zcheck.log 2>&1; ZC=$?
 git reset -q --hard HEAD
 cp $OUT/$DEMO $WT/$DDIR/zz_demo_test.go
